@@ -105,7 +105,7 @@ Lemma step_inv s r t :
   Forall2 ev_eq (filter is_key (snd (step s t))) (key_ev r t).
 Proof.
   intros H. pose proof H as [Hd Hq Ht Htr Hp Hc Hg Hpv Hk].
-  destruct t as [c p| | | |d|f m|b bt|c|rest chord stp alter octave dur voice ty dots ta tn|d|d|q].
+  destruct t as [c p| | | |d|f m|b bt|c|rest chord stp alter octave dur voice ty dots ta tn|d|d|q|root kind degs bass offset].
   - (* TPart *)
     split; [|split; constructor]. constructor; cbn; try easy_goal Ht.
   - (* TPartEnd *)
@@ -189,6 +189,26 @@ Proof.
     cbn [step fst snd filter is_nt is_key spec_ev key_ev]. split; [|split; [|constructor]].
     + constructor; cbn; try easy_goal Ht.
     + constructor; [|constructor]. cbn. repeat split; auto; reflexivity.
+  - (* THarmony *)
+    cbn [step]. destruct (harmony_figure (s_transp s) root kind degs bass); cbn [fst snd filter is_nt is_key];
+      (split; [|split; constructor]); constructor; cbn; rw_raise; try easy_goal Ht.
+Qed.
+
+Lemma step_chord s r t :
+  inv s r -> Forall2 ev_eq (filter is_chord (snd (step s t))) (chord_ev r t).
+Proof.
+  intros H. pose proof H as [Hd Hq Ht Htr Hp Hc Hg Hpv Hk].
+  destruct t as [c p| | | |d|f m|b bt|c|rest chord stp alter octave dur voice ty dots ta tn|d|d|q|root kind degs bass offset];
+    try (cbn; constructor; fail).
+  - cbn [step snd]. unfold close_measure_events.
+    destruct (m_tsig (fix_time_signature s)) as [[[? ?] ?]|]; destruct (m_ksig (fix_time_signature s)) as [[[? ?] ?]|];
+      cbn; constructor.
+  - cbn [step]. destruct (m_tsig s); cbn; constructor.
+  - cbn [step chord_ev]. rewrite <- Htr.
+    destruct (harmony_figure (s_transp s) root kind degs bass); cbn [snd filter is_chord]; [|constructor].
+    constructor; [|constructor]. cbn [ev_eq]. split; [|reflexivity].
+    destruct offset as [o|]; [|exact Ht].
+    pose proof (secs_inv s r o H) as Hs. rewrite Qred_correct, Hs, Ht. reflexivity.
 Qed.
 
 (** * The whole token stream *)
@@ -204,16 +224,23 @@ Lemma run_inv ts : forall s r,
   inv s r ->
   inv (fst (run_toks s ts)) (rev ts ++ r) /\
   Forall2 ev_eq (filter is_nt (snd (run_toks s ts))) (spec_from qpm_at r ts) /\
-  Forall2 ev_eq (filter is_key (snd (run_toks s ts))) (keys_from r ts).
+  Forall2 ev_eq (filter is_key (snd (run_toks s ts))) (keys_from r ts) /\
+  Forall2 ev_eq (filter is_chord (snd (run_toks s ts))) (chords_from r ts).
 Proof.
   induction ts as [|t ts IH]; intros s r H.
   - cbn. repeat split; try constructor; apply H.
-  - rewrite run_toks_cons. cbn [fst snd rev spec_from keys_from].
-    destruct (step_inv s r t H) as (H1 & E1 & K1).
-    destruct (IH _ _ H1) as (H2 & E2 & K2).
+  - rewrite run_toks_cons. cbn [fst snd rev spec_from keys_from chords_from].
+    destruct (step_inv s r t H) as (H1 & E1 & K1). pose proof (step_chord s r t H) as C1.
+    destruct (IH _ _ H1) as (H2 & E2 & K2 & C2).
     rewrite <- app_assoc. cbn [app]. split; [exact H2|].
-    rewrite !filter_app_ev. split; apply Forall2_app; assumption.
+    rewrite !filter_app_ev. repeat split; apply Forall2_app; assumption.
 Qed.
+
+(** mxl_harmony (events): every well-formed <harmony> yields its figure at the
+    cursor plus <offset>; a malformed one yields nothing (and raises). *)
+Theorem chord_events_refine ts :
+  Forall2 ev_eq (filter is_chord (snd (run_toks init_st ts))) (chords_from [] ts).
+Proof. apply (run_inv ts init_st [] inv_init). Qed.
 
 (** mxl_cursor_state / mxl_tempo (events) / mxl_key (events): for EVERY token
     stream the note and tempo events are the declarative ones (tempo in force
@@ -336,7 +363,7 @@ Lemma step_tinv s r t :
   Forall2 ev_eq (filter is_time (snd (step s t))) (time_ev r t).
 Proof.
   intros H [T1 T2 T3] Hc. pose proof (i_tp _ _ H) as Ht. pose proof (i_div _ _ H) as Hd.
-  destruct t as [c p| | | |d|f m|b bt|c|rest chord stp alter octave dur voice ty dots ta tn|d|d|q].
+  destruct t as [c p| | | |d|f m|b bt|c|rest chord stp alter octave dur voice ty dots ta tn|d|d|q|root kind degs bass offset].
   - split; [|constructor]. constructor; cbn; assumption.
   - split; [|constructor]. cbn [step fst]. destruct (Qle_bool (s_tp s) (s_total s)); constructor; cbn; assumption.
   - split; [|constructor]. constructor; cbn; try assumption; try reflexivity; exact I.
@@ -372,6 +399,8 @@ Proof.
   - split; [|constructor]. constructor; cbn; assumption.
   - split; [|constructor]. constructor; cbn; assumption.
   - split; [|constructor]. constructor; cbn; assumption.
+  - cbn [step]. destruct (harmony_figure (s_transp s) root kind degs bass); cbn [fst snd filter is_time];
+      (split; [|constructor]); constructor; cbn; rw_raise; assumption.
 Qed.
 
 Lemma run_tinv ts : forall s r,
@@ -553,6 +582,7 @@ Theorem run_doc_ok sc o :
   q_tempos o = (match ev_tempos0 es with [] => [(0%Q, qpm_at (rev (tokens sc)))] | l => l end) /\
   q_tsigs o = map (fun x => let '(n, d, t) := x in (t, n, d)) (dedup (ev_times es)) /\
   conv_keys (match dedup (ev_keys es) with [] => [(0, 0, 0%Q)] | l => l end) = Some (q_ksigs o) /\
+  q_chords o = ev_chords es /\
   s_err (fst (run_toks init_st (tokens sc))) = 0.
 Proof.
   unfold run_doc. pose proof (final_state_refines (tokens sc)) as [Fq _].
@@ -564,6 +594,24 @@ Proof.
   - destruct (ev_tempos0 es); reflexivity.
   - destruct (dedup (ev_keys es)); exact Ek.
 Qed.
+
+(** A figure, spelled out: C#m7(add9)(b5)(no3)/Eb. *)
+Fixpoint kind_index_from (i : Z) (name : list Z) (l : list (list Z * list Z)) : Z :=
+  match l with
+  | [] => -2
+  | (n, _) :: r => if str_eqb n name then i else kind_index_from (i + 1) name r
+  end.
+Definition kind_index (name : list Z) : Z := kind_index_from 0 name CHORD_KINDS.
+Definition MINOR_SEVENTH : list Z := [109; 105; 110; 111; 114; 45; 115; 101; 118; 101; 110; 116; 104].
+Theorem figure_example :
+  harmony_figure 0 (Some (0, Some 1)) (kind_index MINOR_SEVENTH)
+                 [(9, None, 0); (5, Some (-1), 2); (3, None, 1)] (Some (2, Some (-1))) =
+  Some [67; 35; 109; 55; 40; 97; 100; 100; 57; 41; 40; 98; 53; 41; 40; 110; 111; 51; 41; 47; 69; 98] /\
+  harmony_figure (-2) (Some (0, None)) (kind_index MINOR_SEVENTH) [] None = None /\
+  harmony_figure 0 None (kind_index MINOR_SEVENTH) [] None = None /\
+  harmony_figure 0 (Some (0, None)) (-2) [] None = None /\
+  harmony_figure 0 (Some (0, None)) (kind_index MINOR_SEVENTH) [(5, None, 2)] None = None.
+Proof. vm_compute. repeat split; reflexivity. Qed.
 
 Theorem run_doc_error sc e :
   run_doc sc = inl e ->
@@ -577,10 +625,12 @@ Proof.
 Qed.
 
 (** * Boolean comparison is complete for [ev_eq] (used by the refutations) *)
+Lemma str_eqb_refl l : str_eqb l l = true.
+Proof. induction l; cbn; [reflexivity|]. rewrite Z.eqb_refl. exact IHl. Qed.
 Lemma ev_eqb_complete a b : ev_eq a b -> ev_eqb a b = true.
 Proof.
   destruct a, b; cbn; try contradiction; intros H; decompose [and] H; subst;
-    rewrite ?Z.eqb_refl, ?Bool.eqb_reflx; cbn;
+    rewrite ?Z.eqb_refl, ?Bool.eqb_reflx, ?str_eqb_refl; cbn;
     repeat match goal with H : (_ == _)%Q |- _ => apply Qeq_bool_iff in H; rewrite H; clear H end; reflexivity.
 Qed.
 Lemma evs_eqb_complete a : forall b, Forall2 ev_eq a b -> evs_eqb a b = true.
